@@ -1,5 +1,6 @@
 import GixModel.Lemmas.C26Append
 import GixModel.Lemmas.C26Append2
+import GixModel.Lemmas.C26Append3
 import GixModel.Lemmas.C28Body
 /-
 C28 — what `load` reads back from a written file, in terms of the view; used for
@@ -46,7 +47,8 @@ theorem reparse_edited (f : FileS)
     (hbom : noBomHead (render f.toFile.events) = true) (hcr : (render f.toFile.events).getLast? ≠ some 13)
     (hfin : f.toFile.normal = true ∨
       (f.toFile.aug = f.toFile.events ++ [.newline (detectNewline f.toFile)] ∧
-        ∃ e, f.toFile.events.getLast? = some e ∧ (isValueEnd e = true ∨ evIsWs e = true ∨ isHeaderEv e = true))) :
+        ∃ e, f.toFile.events.getLast? = some e ∧ (isValueEnd e = true ∨ evIsWs e = true ∨ isHeaderEv e = true ∨
+          (isComment e = true ∧ detectNewline f.toFile = [10])))) :
     ∃ g, load f.write = some g ∧ g.view = f.view ∧ g.comments = f.comments := by
   have hview : f.view = f.toFile.sections.map (fun s => (s.header, bodyEntries s.header s.body none [])) := by
     simp [FileS.view, FileS.toFile, Sec.entries, List.map_map, Function.comp_def]
@@ -71,13 +73,22 @@ theorem reparse_edited (f : FileS)
       rw [this] at ha
       have := congrArg List.length ha
       simp at this
-    have hlo : LastOk f.toFile.events := by
-      refine ⟨e, hle, ?_⟩
-      rcases hv with hv | hv | hv
-      · exact Or.inl (by simp [isGoodEnd, hv])
-      · exact Or.inl (by simp [isGoodEnd, hv])
-      · exact Or.inr hv
-    have hF := fileFromBytes_app_eq2 (detectNewline_NL f.toFile) hs hbom hcr hsec hlo
+    have hF : fileFromBytes (render f.toFile.events ++ detectNewline f.toFile) =
+        some (fileOfEvents (f.toFile.events ++ [.newline (detectNewline f.toFile)])) := by
+      by_cases hnl : detectNewline f.toFile = [10]
+      · rw [hnl]
+        refine fileFromBytes_app_eqG (Or.inl rfl) eofOk_lf isGoodEndLf_toReal hs hbom hcr hsec ⟨e, hle, ?_⟩
+        rcases hv with hv | hv | hv | hv
+        · exact Or.inl (by simp [isGoodEndLf, isGoodEnd, hv])
+        · exact Or.inl (by simp [isGoodEndLf, isGoodEnd, hv])
+        · exact Or.inr hv
+        · exact Or.inl (by simp [isGoodEndLf, hv.1])
+      · refine fileFromBytes_app_eq2 (detectNewline_NL f.toFile) hs hbom hcr hsec ⟨e, hle, ?_⟩
+        rcases hv with hv | hv | hv | hv
+        · exact Or.inl (by simp [isGoodEnd, hv])
+        · exact Or.inl (by simp [isGoodEnd, hv])
+        · exact Or.inr hv
+        · exact absurd hv.2 hnl
     have hl : load f.write = (fileFromBytes f.write).map _ := rfl
     rw [hw, hF] at hl
     refine ⟨_, by rw [hw]; exact hl, ?_⟩
